@@ -42,10 +42,11 @@ func init() {
 }
 
 type c12Witness struct {
-	App    int         `json:"app"`
-	Inputs []string    `json:"inputs"` // the crash happens during the last one
-	Point  vos.Point   `json:"crash_point"`
-	Ops    []vos.OpRec `json:"operations_of_the_request,omitempty"`
+	Flushing bool        `json:"flushing_persister_and_retried_finish,omitempty"`
+	App      int         `json:"app"`
+	Inputs   []string    `json:"inputs"` // the crash happens during the last one
+	Point    vos.Point   `json:"crash_point"`
+	Ops      []vos.OpRec `json:"operations_of_the_request,omitempty"`
 }
 
 func c12App(i int) *app.App {
@@ -104,10 +105,15 @@ func c12Open(dir string, puts *[][]byte) func() db.Db {
 	}
 }
 
+// c12Flushing: the sessions are served with a persister that flushes after saving, and a Finish that
+// fails is retried once (set per run; the crash-free reference runs do not depend on it).
+var c12Flushing bool
+
 func c12Session(a *app.App, dir, id string, puts *[][]byte) *app.Session {
 	s := app.NewSession(a, engine.Config{SessionId: id}, app.Persisted)
 	s.Open = c12Open(dir, puts)
 	s.FinishOnError = true
+	s.Flush, s.RetryFinish = c12Flushing, c12Flushing
 	return s
 }
 
@@ -381,6 +387,8 @@ func c12Replay(w json.RawMessage) (string, string) {
 	if err := json.Unmarshal(w, &wit); err != nil {
 		return "bad-witness", err.Error()
 	}
+	c12Flushing = wit.Flushing
+	defer func() { c12Flushing = false }()
 	if wit.Point.When == "read-fault" {
 		return c12ReadFault(wit.App, wit.Inputs)
 	}
@@ -435,6 +443,19 @@ func c12Run(c *mc.Ctx) {
 						}
 					}
 					for _, p := range pts {
+						if strings.HasPrefix(p.When, "fail") {
+							// the same I/O error with a flushing persister and a client that retries a failed Finish
+							c12Flushing = true
+							sig, msg, reached := c12Crash(appi, inputs, p, refs)
+							c12Flushing = false
+							c.Count("evaluations", 1)
+							if reached {
+								c.Count("io_error_points_with_retried_finish", 1)
+								if sig != "" {
+									c.Fail(sig, msg, c12Witness{App: appi, Inputs: inputs, Point: p, Ops: ops, Flushing: true})
+								}
+							}
+						}
 						sig, msg, reached := c12Crash(appi, inputs, p, refs)
 						c.Count("evaluations", 1)
 						if !reached {
